@@ -23,6 +23,11 @@ pub fn push(ptr: usize, size: usize, align: usize) -> bool {
     if !is_on() {
         return false;
     }
+    // the block stays allocated until the run is over, so a use-after-free would read perfectly intact data:
+    // scribble over it (what MALLOC_PERTURB_ does for a real free), then dangling payloads show in the canaries
+    if size > 0 {
+        unsafe { core::ptr::write_bytes(ptr as *mut u8, 0xDD, size) };
+    }
     let i = Q_N.fetch_add(1, Ordering::Relaxed);
     if i < QCAP {
         unsafe { (*core::ptr::addr_of_mut!(Q_BUF))[i] = (ptr, size, align) };
